@@ -1807,6 +1807,11 @@ impl HashColumn {
 								let key = source.recover_key_prefix(source_index, *entry);
 								plan.push((key, entry.address(source.id.index_bits())))
 							}
+							#[cfg(pdb_verif)]
+							if plan.len() >= crate::verif::reindex_batch() {
+								source_index += 1;
+								break
+							}
 							source_index += 1;
 						}
 						log::trace!(target: "parity-db", "{}: End reindex batch {} ({})", tables.index.id, source_index, plan.len());
@@ -1835,6 +1840,11 @@ impl HashColumn {
 									continue
 								}
 								ref_count_plan.push((entry.address(), entry.ref_count()));
+							}
+							#[cfg(pdb_verif)]
+							if ref_count_plan.len() >= crate::verif::reindex_batch() {
+								source_index += 1;
+								break
 							}
 							source_index += 1;
 						}
